@@ -161,7 +161,11 @@ class Interp(object):
                 raise PyRaise("TypeError", "'in <string>' requires string as left operand")
             if isinstance(cont, str) and isinstance(item, str):
                 return item in cont
-            return z3.Contains(zs(cont), zs(item))
+            zi_ = zs(item)
+            if isinstance(cont, str) and cont and self.at_most_one_char(zi_):
+                # `c in "abc"` for a string of at most one character: c == "" or c is one of the characters
+                return z3.Or(zi_ == z3.StringVal(""), z3.InRe(zi_, regex2smt.charset_regex(cont)))
+            return z3.Contains(zs(cont), zi_)
         if isinstance(cont, (bytes, SBytes)):
             return z3.Contains(B.zbytes(cont), B.zbytes(item))
         if isinstance(cont, SStrList):
@@ -171,6 +175,14 @@ class Interp(object):
             if m is not None:
                 return self.truth(self.call(m, [item], {}))
         raise OutOfReach("`in` on %r" % (cont,))
+
+    def at_most_one_char(self, z):
+        if z.decl().kind() == z3.Z3_OP_SEQ_AT:
+            return True
+        if z.decl().kind() == z3.Z3_OP_SEQ_EXTRACT:
+            ln = z3.simplify(z.arg(2))
+            return z3.is_int_value(ln) and ln.as_long() <= 1
+        return self.ctx.check(z3.Length(z) > 1)[0] == "unsat"
 
     # ------------------------------------------------------------------ names
     def lookup(self, name, frame, node=None):
@@ -425,7 +437,7 @@ class Interp(object):
                 raise PyRaise("TypeError", "missing argument %s for %s" % (p, fn.fullname))
         return loc
 
-    def call_function(self, fn, args, kwargs, node=None, top=False, spec=None):
+    def call_function(self, fn, args, kwargs, node=None, top=False, spec=None, record_frame=False):
         ctx = self.ctx
         contract = None if top else ctx.registry.get(fn.fullname)
         if contract is not None and getattr(contract, "modular", True) and fn.module.is_repo:
@@ -441,7 +453,7 @@ class Interp(object):
             loc = self.bind(fn, args, kwargs)
             spec_mode = (not fn.module.is_repo) if spec is None else spec
             fr = Frame(fn, loc, spec_mode)
-            if top:
+            if record_frame:
                 self.top_frame = fr
             if has_yield(fn.node):
                 fr.yielded = []
